@@ -57,6 +57,17 @@ def values(name, G, T, seed=0):
             nz = _noise(613 * seed + 17 * g + 3, T, 0, amp[g % len(amp)])
             out[g] = [float(w[g % len(w)] * common[d] + nz[d] + (150 - 20 * d if (g == 1 and d < T // 2) else 0)
                             + (40 if (g == 2 and d >= T // 2) else 0)) for d in range(T)]
+    elif name == 'W':    # WEAKLY correlated geos: a small common component under large idiosyncratic noise, so that many designs
+        # fail the correlation test and are ranked by their other verdicts (seed selects one of several fixed panels)
+        steps = _noise(41 + 7 * seed, T, -2, 3)
+        common, c = [], 30
+        for d in range(T):
+            c = max(6, c + steps[d])
+            common.append(c)
+        for g in range(G):
+            nz = _noise(733 * seed + 29 * g + 11, T, 0, 14 + 3 * g)
+            drift = [(d * (g % 3)) // 2 for d in range(T)]
+            out[g] = [float((3 - g % 2) * common[d] + nz[d] + drift[d]) for d in range(T)]
     elif name == 'C':    # seed-derived panel (VERIF_SEED != 0): random walk with random weights
         ws = _noise(seed + 3, G, 1, 9)
         steps = _noise(seed + 11, T, -4, 5)
